@@ -125,4 +125,275 @@ theorem C07_round_idem (us p : Nat) : roundedUs (roundedUs us p) p = roundedUs u
       rw [Nat.mul_div_cancel _ hpos]
     · rfl
 
+/-! ### round trips: `read (store (validate v)) = validate v` -/
+
+/-- bool: every value -/
+theorem C07_roundtrip_bool (b : Bool) : boolFromSql (boolToSql b) = .val b := by
+  cases b <;> rfl
+
+/-- int: every integer that fits 64 bits — i.e. every value an int attribute of size 8/16/24/32/64 (signed) or
+    8/16/24/32 (unsigned) accepts (C08_int) — is stored and read back unchanged; anything else is refused by the driver -/
+theorem C07_roundtrip_int (i : Int) :
+    (-(2 ^ 63) ≤ i ∧ i < 2 ^ 63 → (intToSql i).map intFromSql = some (.val i)) ∧
+    (¬ (-(2 ^ 63) ≤ i ∧ i < 2 ^ 63) → intToSql i = none) := by
+  constructor
+  · intro h; unfold intToSql; rw [if_pos h]; rfl
+  · intro h; unfold intToSql; rw [if_neg h]
+
+/-- str / LongStr: every string (empty, NUL, any code point) -/
+theorem C07_roundtrip_str (s : List Char) : strFromSql (strToSql s) = .val s := rfl
+
+/-- bytes: every byte string -/
+theorem C07_roundtrip_bytes (b : List Nat) : bytesFromSql (bytesToSql b) = .val b := rfl
+
+/-- UUID: every 128-bit value through its 16 big-endian bytes -/
+theorem C07_roundtrip_uuid (u : Nat) (h : u < 2 ^ 128) : uuidFromSql (uuidToSql u) = .val u := by
+  simp only [uuidToSql, uuidFromSql, length_toBytesBE, if_true, fromBytesBE_toBytesBE]
+  rw [show (256 : Nat) ^ 16 = 2 ^ 128 by decide, Nat.mod_eq_of_lt h]
+
+theorem length_dateToText (x : Date) : (dateToText x).length = 10 := by simp [dateToText]
+
+theorem parseDateText_dateToText (x : Date) (h : x.valid) : parseDateText (dateToText x) = some x := by
+  obtain ⟨y, m, d⟩ := x
+  obtain ⟨h1, h2, h3, h4, h5, h6⟩ := h
+  simp only at h1 h2 h3 h4 h5 h6
+  simp only [parseDateText, dateToText]
+  rw [takeDigits_padN 4 y _ (by omega)]
+  simp only [expect_cons]
+  rw [takeDigits_padN 2 m _ (by omega)]
+  simp only [expect_cons]
+  have := takeDigits_padN 2 d [] (by omega : d < 10 ^ 2)
+  rw [List.append_nil] at this
+  rw [this]
+  simp [h1, h3, h4, h5, h6]
+
+/-- date: every date from 0001-01-01 to 9999-12-31 (the year is zero-padded, so the fixed-width `%Y` of `strptime` accepts it) -/
+theorem C07_roundtrip_date (x : Date) (h : x.valid) : dateFromSql (dateToSql x) = .val x := by
+  simp only [dateToSql, dateFromSql]
+  rw [List.take_of_length_le (by rw [length_dateToText]; exact Nat.le_refl _), parseDateText_dateToText x h]
+
+theorem parseHMS_hmsText (h mi s : Nat) (rest : List Char) (hh : h < 24) (hm : mi < 60) (hs : s < 60) :
+    parseHMS (hmsText h mi s rest) = some (h, mi, s, rest) := by
+  simp only [parseHMS, hmsText]
+  rw [takeDigits_padN 2 h _ (by omega)]
+  simp only [expect_cons]
+  rw [takeDigits_padN 2 mi _ (by omega)]
+  simp only [expect_cons]
+  rw [takeDigits_padN 2 s _ (by omega)]
+  have : s < 62 := by omega
+  simp [hh, hm, this]
+
+theorem length_hmsText (h mi s : Nat) (rest : List Char) : (hmsText h mi s rest).length = 8 + rest.length := by
+  simp [hmsText]; omega
+
+theorem parseFrac_pad6 (us : Nat) (h : us < 1000000) : parseFrac (padN 6 us) = some us := by
+  unfold parseFrac
+  simp only [length_padN]
+  rw [if_neg (by omega), List.take_append_of_le_length (by simp), List.take_of_length_le (by simp)]
+  exact parseNat_padN_lt 6 us (by omega)
+
+theorem timeFromSql_timeToSql (t : Time) (h : t.valid) : timeFromSql (timeToSql t) = .val t := by
+  obtain ⟨hh, mi, s, us⟩ := t
+  obtain ⟨h1, h2, h3, h4⟩ := h
+  simp only at h1 h2 h3 h4
+  simp only [timeToSql, timeToText, timeFromSql]
+  by_cases hu : us = 0
+  · subst hu
+    simp only [if_true, length_hmsText, List.length_nil, Nat.add_zero, Nat.le_refl, parseHMS_hmsText hh mi s [] h1 h2 h3, h3]
+  · simp only [hu, if_false, length_hmsText, List.length_cons, length_padN]
+    rw [if_neg (by omega), parseHMS_hmsText hh mi s _ h1 h2 h3]
+    simp only [parseFrac_pad6 us h4, h3, if_true]
+
+theorem valid_timeValidate (p : Nat) (t : Time) (h : t.valid) : (timeValidate p t).valid := by
+  obtain ⟨h1, h2, h3, h4⟩ := h
+  refine ⟨h1, h2, h3, ?_⟩
+  have := C07_round_le t.us p
+  simp only [timeValidate]
+  omega
+
+/-- time of every precision 0..6: the validated (rounded) time is what a fresh session reads -/
+theorem C07_roundtrip_time (p : Nat) (t : Time) (h : t.valid) :
+    timeFromSql (timeToSql (timeValidate p t)) = .val (timeValidate p t) :=
+  timeFromSql_timeToSql _ (valid_timeValidate p t h)
+
+theorem length_timeToText (t : Time) : (timeToText t).length = if t.us = 0 then 8 else 15 := by
+  unfold timeToText
+  split <;> simp [length_hmsText]
+
+theorem take_append_len {α} (a b : List α) (n : Nat) (h : a.length = n) : (a ++ b).take n = a := by
+  subst h; simp
+
+theorem drop_append_len {α} (a b : List α) (n : Nat) (h : a.length = n) : (a ++ b).drop n = b := by
+  subst h; simp
+
+/-- `timestamp2datetime` on a text of the shape `D ' ' H '.' F` with |D| = 10, |H| = 8, |F| = 6 -/
+theorem timestamp2datetime_shape (D H F : List Char) (hD : D.length = 10) (hH : H.length = 8) (hF : F.length = 6)
+    (d : Date) (h mi sec us : Nat) (pd : parseDateText D = some d) (ph : parseHMS H = some (h, mi, sec, []))
+    (pf : parseNat F = some us) (hs : sec < 60) :
+    timestamp2datetime (D ++ (' ' :: (H ++ ('.' :: F)))) = some ⟨d, ⟨h, mi, sec, us⟩⟩ := by
+  have e1 : D ++ (' ' :: (H ++ ('.' :: F))) = (D ++ (' ' :: H)) ++ ('.' :: F) := by simp
+  have t19 : (D ++ (' ' :: (H ++ ('.' :: F)))).take 19 = D ++ (' ' :: H) := by
+    rw [e1]; exact take_append_len _ _ 19 (by simp [hD, hH])
+  have e2 : D ++ (' ' :: (H ++ ('.' :: F))) = (D ++ (' ' :: (H ++ ['.']))) ++ F := by simp
+  have d20 : (D ++ (' ' :: (H ++ ('.' :: F)))).drop 20 = F := by
+    rw [e2]; exact drop_append_len _ _ 20 (by simp [hD, hH])
+  have t10 : (D ++ (' ' :: H)).take 10 = D := take_append_len _ _ 10 hD
+  have d10 : (D ++ (' ' :: H)).drop 10 = ' ' :: H := drop_append_len _ _ 10 hD
+  have f6 : ((F.take 6) ++ zeros6).take 6 = F := by
+    have : F.take 6 = F := List.take_of_length_le (by omega)
+    rw [this]; exact take_append_len _ _ 6 hF
+  unfold timestamp2datetime
+  simp only [t19, d20, t10, d10, f6, expect_cons, pd, ph, pf, hs, if_true]
+
+theorem timestamp_roundtrip (x : DateTime) (h : x.valid) : timestamp2datetime (datetime2timestamp x) = some x := by
+  obtain ⟨d, t⟩ := x
+  obtain ⟨hd, ht⟩ := h
+  obtain ⟨hh, mi, s, us⟩ := t
+  obtain ⟨h1, h2, h3, h4⟩ := ht
+  simp only at h1 h2 h3 h4 hd
+  have hlen : (dateToText d).length = 10 := length_dateToText d
+  by_cases hu : us = 0
+  · subst hu
+    -- isoformat has 19 characters: '.000000' is appended
+    have e : datetime2timestamp ⟨d, ⟨hh, mi, s, 0⟩⟩ = dateToText d ++ (' ' :: (hmsText hh mi s [] ++ ('.' :: zeros6))) := by
+      simp [datetime2timestamp, isoDateTime, timeToText, length_hmsText, hlen]
+    rw [e]
+    exact timestamp2datetime_shape _ _ _ hlen (by simp [length_hmsText]) (by rfl) d hh mi s 0
+      (parseDateText_dateToText d hd) (parseHMS_hmsText hh mi s [] h1 h2 h3) (by rfl) h3
+  · have e : datetime2timestamp ⟨d, ⟨hh, mi, s, us⟩⟩ = dateToText d ++ (' ' :: (hmsText hh mi s [] ++ ('.' :: padN 6 us))) := by
+      simp [datetime2timestamp, isoDateTime, timeToText, hlen, hu, hmsText]
+    rw [e]
+    exact timestamp2datetime_shape _ _ _ hlen (by simp [length_hmsText]) (by simp) d hh mi s us
+      (parseDateText_dateToText d hd) (parseHMS_hmsText hh mi s [] h1 h2 h3) (parseNat_padN_lt 6 us (by omega)) h3
+
+/-- datetime of every precision 0..6, years 1..9999: the validated (rounded) value is what a fresh session reads;
+    `datetime2timestamp` always writes 26 characters (`.000000` appended when the microseconds are 0) -/
+theorem C07_roundtrip_datetime (p : Nat) (x : DateTime) (h : x.valid) :
+    datetimeFromSql (datetimeToSql (datetimeValidate p x)) = .val (datetimeValidate p x) := by
+  have hv : (datetimeValidate p x).valid := ⟨h.1, valid_timeValidate p x.time h.2⟩
+  simp only [datetimeToSql, datetimeFromSql, timestamp_roundtrip _ hv]
+
+/-- the stored text of a datetime always has the fixed width 26, so text comparison in SQL orders datetimes correctly -/
+theorem C07_datetime_text_width (x : DateTime) : (datetime2timestamp x).length = 26 := by
+  unfold datetime2timestamp isoDateTime
+  simp only [List.length_append, List.length_cons, length_dateToText, length_timeToText]
+  by_cases hu : x.time.us = 0 <;> simp [hu, zeros6, length_dateToText, length_timeToText]
+
+/-! ### Decimal: quantisation to the declared scale -/
+
+/-- two finite Decimals denote the same number -/
+def sameNumber (a b : Dec) : Prop :=
+  (a.coeff = 0 ∧ b.coeff = 0) ∨
+  (a.neg = b.neg ∧ ∃ e : Int, e ≤ a.exp ∧ e ≤ b.exp ∧ a.coeff * 10 ^ (a.exp - e).toNat = b.coeff * 10 ^ (b.exp - e).toNat)
+
+/-- what the database holds has exactly `scale` fractional digits -/
+theorem C07_quantize_exp (scale : Nat) (x : Dec) : (quantize scale x).exp = -(scale : Int) := by
+  unfold quantize; dsimp only; split <;> rfl
+
+/-- quantising is idempotent: the value read in a fresh session (quantised on write and again on read) is stable -/
+theorem C07_quantize_idem (scale : Nat) (x : Dec) : quantize scale (quantize scale x) = quantize scale x := by
+  have h := C07_quantize_exp scale x
+  generalize quantize scale x = q at h
+  obtain ⟨n, c, e⟩ := q
+  simp only at h; subst h
+  simp [quantize]
+
+/-- a value with at most `scale` fractional digits is stored exactly -/
+theorem C07_quantize_exact (scale : Nat) (x : Dec) (h : -(scale : Int) ≤ x.exp) : sameNumber (quantize scale x) x := by
+  right
+  unfold quantize
+  rw [if_pos (by omega)]
+  refine ⟨rfl, -(scale : Int), Int.le_refl _, h, ?_⟩
+  simp
+
+/-- the full statement "the value the session holds after the flush is the value a fresh session reads" for Decimal
+    attributes: false, because `validate` keeps the unrounded value and only `py2sql` / `sql2py` quantise -/
+def C07_decimal_session_full : Prop := ∀ (scale : Nat) (x : Dec), sameNumber (quantize scale x) x
+
+/-- witness: `Decimal('1.005')` with scale 2 is held as 1.005 by the writing session and read as 1.00 by the next
+    (replayed on the real code by the engine on every run; known finding `decimal-unrounded-in-session`) -/
+theorem C07_decimal_session_full_false : ¬ C07_decimal_session_full := by
+  intro h
+  have := h 2 ⟨false, 1005, -3⟩
+  have hq : quantize 2 ⟨false, 1005, -3⟩ = ⟨false, 100, -2⟩ := by decide
+  rw [hq] at this
+  rcases this with ⟨h1, _⟩ | ⟨_, e, he1, he2, heq⟩
+  · simp at h1
+  · simp only at he1 he2 heq
+    obtain ⟨k, rfl⟩ : ∃ k : Nat, e = -3 - (k : Int) := ⟨(-3 - e).toNat, by omega⟩
+    have e1 : ((-2 : Int) - (-3 - (k : Int))).toNat = k + 1 := by omega
+    have e2 : ((-3 : Int) - (-3 - (k : Int))).toNat = k := by omega
+    rw [e1, e2, Nat.pow_succ] at heq
+    have hpos : 0 < 10 ^ k := Nat.pow_pos (by decide)
+    generalize 10 ^ k = t at heq hpos
+    omega
+
+/-- half-even rounding moves the coefficient by at most half a unit of the last kept digit -/
+theorem C07_round_half_even_error (n k : Nat) :
+    2 * (divRoundHalfEven n k * 10 ^ k) ≤ 2 * n + 10 ^ k ∧ 2 * n ≤ 2 * (divRoundHalfEven n k * 10 ^ k) + 10 ^ k := by
+  simp only [divRoundHalfEven]
+  have hpos : 0 < 10 ^ k := Nat.pow_pos (by decide)
+  generalize 10 ^ k = p at hpos ⊢
+  have h1 := Nat.div_add_mod n p
+  have h2 := Nat.mod_lt n hpos
+  generalize n / p = q at *
+  generalize n % p = r at *
+  have hq : q * p = p * q := Nat.mul_comm _ _
+  split
+  · constructor <;> (rw [hq]; omega)
+  · split
+    · rw [Nat.add_mul, hq]; constructor <;> omega
+    · split
+      · constructor <;> (rw [hq]; omega)
+      · rw [Nat.add_mul, hq]; constructor <;> omega
+
+/-! ### query parameters: `e.attr == param` compares the stored encoding with the encoding of the parameter
+   (the parameter goes through the same `py2sql`), so it selects exactly the rows holding an equal value -/
+
+theorem Loaded.val_inj {α} {a b : α} (h : (Loaded.val a : Loaded α) = .val b) : a = b := by injection h
+
+theorem C07_param_eq_date (x y : Date) (hx : x.valid) (hy : y.valid) : dateToSql x = dateToSql y ↔ x = y := by
+  constructor
+  · intro h
+    have := C07_roundtrip_date x hx
+    rw [h, C07_roundtrip_date y hy] at this
+    exact (Loaded.val_inj this).symm
+  · intro h; rw [h]
+
+theorem C07_param_eq_time (x y : Time) (hx : x.valid) (hy : y.valid) : timeToSql x = timeToSql y ↔ x = y := by
+  constructor
+  · intro h
+    have := timeFromSql_timeToSql x hx
+    rw [h, timeFromSql_timeToSql y hy] at this
+    exact (Loaded.val_inj this).symm
+  · intro h; rw [h]
+
+theorem C07_param_eq_datetime (x y : DateTime) (hx : x.valid) (hy : y.valid) : datetimeToSql x = datetimeToSql y ↔ x = y := by
+  constructor
+  · intro h
+    have e1 := timestamp_roundtrip x hx
+    have e2 := timestamp_roundtrip y hy
+    simp only [datetimeToSql, Sql.text.injEq] at h
+    rw [h, e2] at e1
+    injection e1 with e1; exact e1.symm
+  · intro h; rw [h]
+
+theorem C07_param_eq_uuid (x y : Nat) (hx : x < 2 ^ 128) (hy : y < 2 ^ 128) : uuidToSql x = uuidToSql y ↔ x = y := by
+  constructor
+  · intro h
+    have := C07_roundtrip_uuid x hx
+    rw [h, C07_roundtrip_uuid y hy] at this
+    exact (Loaded.val_inj this).symm
+  · intro h; rw [h]
+
+/-! ### non-vacuity -/
+example : dateToText ⟨999, 12, 31⟩ = "0999-12-31".toList := by decide
+example : dateFromSql (.text "999-12-31".toList) = .raw (.text "999-12-31".toList) := by decide
+example : timeToText (timeValidate 3 ⟨1, 2, 3, 999999⟩) = "01:02:03.999000".toList := by decide
+example : datetime2timestamp ⟨⟨1, 1, 1⟩, ⟨0, 0, 0, 0⟩⟩ = "0001-01-01 00:00:00.000000".toList := by decide
+example : (⟨⟨9999, 12, 31⟩, ⟨23, 59, 59, 999999⟩⟩ : DateTime).valid := by
+  simp [DateTime.valid, Date.valid, Time.valid]
+example : quantize 2 ⟨true, 12345, -3⟩ = ⟨true, 1234, -2⟩ := by decide
+example : quantize 2 ⟨false, 12355, -3⟩ = ⟨false, 1236, -2⟩ := by decide
+
 end PonyVerif.Props.C07
